@@ -11,7 +11,6 @@ import (
 	"sort"
 	"strings"
 
-	sdk "github.com/cosmos/cosmos-sdk/types"
 	"github.com/jackalLabs/canine-chain/v4/app"
 )
 
@@ -122,24 +121,10 @@ func genesisRoundTrip(c *Chain, hist int, profile string, out *Emitter) {
 	for _, m := range customModules {
 		before[m] = c.dumpModule(m)
 	}
-	var fresh *Chain
-	var initPanic interface{}
-	func() {
-		defer func() {
-			if r := recover(); r != nil {
-				initPanic = r
-			}
-		}()
-		fresh = NewChain(len(c.Users), []string{"ujkl", "utest"}, func(a *app.JackalApp, gs app.GenesisState, users []sdk.AccAddress) {
-			for _, m := range customModules {
-				if bz, ok := exported[m]; ok {
-					gs[m] = bz
-				}
-			}
-		})
-	}()
-	if initPanic != nil {
-		out.Emit(map[string]interface{}{"mod": "genesis", "hist": hist, "i": 0, "profile": profile, "module": "*", "initPanic": fmt.Sprint(initPanic), "op": "roundtrip", "ok": false})
+	// the chain's own restart path: whole-application export, fresh application, InitChain at the next height
+	fresh := c
+	if e := c.RestartInit(); e != "" {
+		out.Emit(map[string]interface{}{"mod": "genesis", "hist": hist, "i": 0, "profile": profile, "module": "*", "initPanic": e, "op": "roundtrip", "ok": false})
 		return
 	}
 	exported2, _ := fresh.exportCustom()
@@ -209,5 +194,4 @@ func genesisRoundTrip(c *Chain, hist int, profile string, out *Emitter) {
 			"reexportEqual": bytes.Equal(b1, b2), "reexportDiff": diffFields, "op": "roundtrip", "ok": true})
 		out.Count("genesis."+m, true)
 	}
-	fresh.Close()
 }
